@@ -399,6 +399,21 @@ def read_canon(o, name):
 FRESH_ATTRS = [a for a in ATTRS if a not in DEB_ATTRS] + ['methods']
 
 
+def definitions(d):
+    """what the attributes are documented to be, computed from the list-of-lists d alone"""
+    ny, nx = len(d), len(d[0])
+    labs = labels_of(d)
+    px = {l: [(y, x) for y in range(ny) for x in range(nx) if d[y][x] == l] for l in labs}
+    box = [(min(y for y, _ in px[l]), max(y for y, _ in px[l]) + 1,
+            min(x for _, x in px[l]), max(x for _, x in px[l]) + 1) for l in labs]
+    mx = max(labs) if labs else 0
+    return {'labels': labs, 'nlabels': len(labs), 'max_label': mx, 'slices': box, 'bbox': box,
+            'areas': [len(px[l]) for l in labs], 'background_area': sum(v == 0 for r in d for v in r),
+            'is_consecutive': bool(labs) and labs == list(range(1, len(labs) + 1)),
+            'missing_labels': [i for i in range(1, mx + 1) if i not in labs], 'shape': (ny, nx), '_ndim': 2,
+            '_raw_slices': [box[labs.index(i)] if i in labs else None for i in range(1, mx + 1)]}
+
+
 def fresh_violations(obj):
     """every derived attribute (read on a private deep copy, so with exactly the cache the
     object has now) equals that of a freshly constructed SegmentationImage; bookkeeping
@@ -413,6 +428,13 @@ def fresh_violations(obj):
                  f'SegmentationImage(data.copy()) raises {type(e).__name__}: {e}', {})]
     if fresh.data.dtype != obj.data.dtype:
         out.append(('dtype', None, 'dtype differs from a fresh object', {}))
+    for name, want in definitions(d).items():   # the fresh object itself must describe the array
+        got = read_canon(SegmentationImage(np.array(obj.data, copy=True)), name)
+        if name == 'labels' and isinstance(got, tuple) and got[0] != 'EXC':
+            got = got[1]
+        if not (isinstance(got, tuple) and got and got[0] == 'EXC') and got != want:
+            out.append(('definition', name, f'{name} of a fresh SegmentationImage is not its documented value',
+                        {'got': got, 'documented': want}))
     for name in FRESH_ATTRS:
         want = read_canon(fresh, name)
         got = read_canon(obj.copy(), name)
@@ -452,7 +474,7 @@ def fresh_violations(obj):
         areas = [int(a) for a in c.areas]
         bbs = [bb4(x) for x in c.bbox]
         if len(polys) != len(cl) or len(segs) != len(cl):
-            out.append(('per-label', 'polygons', f'{len(polys)} polygons / {len(segs)} segments for {len(cl)} labels', {}))
+            out.append(('per-label-count', 'polygons', f'{len(polys)} polygons / {len(segs)} segments for {len(cl)} labels', {}))
         else:
             for i, l in enumerate(cl):
                 n, a, bnd = poly_obs(polys[i])
@@ -479,7 +501,8 @@ def signature(vk, attr, op, prev, cur, hi, hi_cur=None):
     k = op[0]
     s = site(op)
     if attr in POLY_ATTRS:
-        return poly_class(cur) or f'polygons:{vk}'
+        return (poly_class(cur) if vk in ('read-raises', 'per-label-count', 'raises-on-documented-arguments') else None) \
+            or f'polygons:{vk}'
     if vk in ('deblend-absent', 'deblend-map-effect'):
         return 'deblend_label_map:names-absent-label'
     if vk == 'deblend-stale':
@@ -492,7 +515,7 @@ def signature(vk, attr, op, prev, cur, hi, hi_cur=None):
         return 'relabel_consecutive:start_label-overflow'
     big = labs + ([op[2]] if k == 'reassign' else [])
     curl = labels_of(cur)
-    if ((big and max(big) >= hi) or (curl and max(curl) >= hi_cur)) and vk in ('raises-on-documented-arguments', 'effect', 'read-raises', 'stale'):
+    if ((big and max(big) >= hi) or (curl and max(curl) >= hi_cur)) and vk in ('raises-on-documented-arguments', 'read-raises'):
         return 'max_label+1:label=dtype-max'
     if vk == 'effect' and rel_flag(op):
         op2 = list(op)
